@@ -335,3 +335,15 @@ pub fn for_each_string<'a>(r: &'a R, f: &mut dyn FnMut(&'a R)) {
         _ => {}
     }
 }
+
+/// recursively sort object members by decoded key (for order-insensitive comparisons)
+pub fn sort_members(r: &mut R) {
+    match &mut r.k {
+        K::Arr(v) => v.iter_mut().for_each(sort_members),
+        K::Obj(v) => {
+            v.iter_mut().for_each(|(_, x)| sort_members(x));
+            v.sort_by(|a, b| a.0.key_str().cmp(&b.0.key_str()));
+        }
+        _ => {}
+    }
+}
